@@ -156,6 +156,8 @@ class Interp:
         self.sign_mode = "bool"       # bool | sign | sign+nan
         self.nanable = lambda sym: False
         self.default_fact = None      # callable(key) -> pinned value | None
+        self.apps = {}                # symbol name of an uninterpreted application -> (function, argument polys)
+        self.int_symbols = set()      # symbols that only take integer values
         self.while_bound = None       # iterations of a `while` before the path is abandoned
         self.positive_syms = set()    # symbols known to be > 0 (lengths of non-empty things)
         self.transform_mode = "uninterpreted"   # or "identity"
@@ -984,6 +986,11 @@ class Interp:
     def getslice(self, base, lo, hi, st, node):
         base = self.force(base)
         items = None
+        if isinstance(base, LinV):
+            k = self.const_int(lo) if not (isinstance(lo, Const) and lo.v is None) else 0
+            if k is not None and k >= 0 and isinstance(hi, Const) and hi.v is None and isinstance(st, Const) and st.v is None:
+                return LinV(base.start, base.stop, base.num, base.endpoint, base.dropped + k)
+            return Unk(f"slice({self.tag(base)})", "array")
         if isinstance(base, BV):
             parts = base.parts
             total = self.bv_len(parts)
@@ -1024,12 +1031,17 @@ class Interp:
                     return Const(r)
                 if isinstance(base, Ref):
                     return self.alloc(AList(list(r)))
+                if isinstance(base, ArrV):
+                    return ArrV(tuple(r))
                 return Tup(tuple(r))
         return Unk(f"slice({self.tag(base)},{self.tag(lo)},{self.tag(hi)},{self.tag(st)})", typ=getattr(base, "typ", ""))
 
     def getitem(self, base, idx, node):
         base = self.force(base)
         idx = self.force(idx)
+        if isinstance(base, ArrV) and isinstance(idx, Ref) and isinstance(self.heap.get(idx.addr), AList) and self.heap[idx.addr].items is not None \
+                and len(self.heap[idx.addr].items) == len(base.items) and all(isinstance(m, Const) and isinstance(m.v, bool) for m in self.heap[idx.addr].items):
+            return ArrV(tuple(x for x, m in zip(base.items, self.heap[idx.addr].items) if m.v))
         if isinstance(base, (Tup, NT, ArrV)):
             i = self.const_int(idx)
             if i is not None:
@@ -1415,6 +1427,11 @@ class Interp:
         if isinstance(b, Tup):
             return BoundBuiltin(b, attr)
         if isinstance(b, BV):
+            return BoundBuiltin(b, attr)
+        if isinstance(b, ArrV) and attr == "size":
+            inner = len(b.items[0].items) if b.items and isinstance(b.items[0], (Tup, NT)) else 1
+            return Const(len(b.items) * inner)
+        if isinstance(b, LinV):
             return BoundBuiltin(b, attr)
         if isinstance(b, (MatProd, ArrV)):
             if attr in ("shape", "size", "ndim", "T", "dtype"):
